@@ -6,6 +6,7 @@ from ..rules import hashorder, isolation
 def run(ctx, rep):
     hashorder.rule_hash_order(ctx, rep, "C15-R1")
     hashorder.rule_frame_positions(ctx, rep, "C15-R1b")
+    hashorder.rule_parallel_tables(ctx, rep, "C15-R1c")
     isolation.rule_no_identity_in_messages(ctx, rep, "C15-R2")
     isolation.rule_clock_rng_allowlist(ctx, rep, "C15-R3")
     isolation.rule_no_shared_state(ctx, rep, "C15-R4")
